@@ -2,6 +2,7 @@ import GqlgenVerif.Model.Naming
 import GqlgenVerif.Lemmas.Naming
 import GqlgenVerif.Lemmas.Emitted
 import GqlgenVerif.Lemmas.TypeRef
+import GqlgenVerif.Model.Flavour
 /-!
 # C17 — generated identifiers are valid and collision-free (the provable half of C17)
 
@@ -229,5 +230,65 @@ example : spec (.list (.named "Bytes" true) false) (.list [.atom "a", .atom "b"]
 example : (processType (copyModifiers false (.list (.named "Bytes" true) false) (.slice .basic))
     (.list (.named "Bytes" true) false)).1.length = 2 := by decide
 end TypeRefs
+
+/-! ## The two template flavours (function syntax / method syntax) agree
+
+Added after the miss `seeded/C17-change4`: the function-syntax arm of the `IsRoot` branch of `codegen/field.gotpl`
+became a copy of the method-syntax arm (`ec.marshalX(ctx, field.Selections, res)`), so with
+`use_function_syntax_for_execution_context: true` the executor calls a method that is not declared.
+`Gen/FuncSyntaxArms.lean` holds BOTH arms of every `if $useFunctionSyntaxForExecutionContext` of `codegen/*.gotpl`
+(regenerated from the templates on every run); the theorems are stated over that table, so they stop closing when
+an arm is edited out of step with its twin. -/
+section Flavours
+open GqlgenVerif.Flavour GqlgenVerif.Gen.FuncSyntaxArms
+
+set_option maxRecDepth 100000
+
+/-- the extractor's reading of every method arm (declaration / call / reference sites + text) is faithful: it
+flattens back to exactly the tokens of the arm -/
+theorem method_arms_parsed_faithfully :
+    ∀ p ∈ pairs, methTokens p.2.2.2.1 = p.2.2.2.2.1 := by decide
+
+/-- **function_arm_is_translation_of_method_arm**: at every flavour switch of the templates the function-syntax arm is
+the method-syntax arm with each receiver removed and `ec` (`&ec` where `ec` is a value) passed / declared second -
+declaration sites, call sites and references alike. -/
+theorem function_arm_is_translation_of_method_arm :
+    ∀ p ∈ pairs, toFn p.2.2.1 p.2.2.2.1 = p.2.2.2.2.2 := by decide
+
+/-- Spec level, on the raw tokens only (independent of the segment parse): no function-syntax arm goes through the
+receiver (`ec.` …) or declares a method, … -/
+theorem function_arms_never_use_the_receiver :
+    ∀ p ∈ pairs, usesReceiver p.2.2.2.2.2 = false ∧ declaresMethod p.2.2.2.2.2 = false := by decide
+
+/-- … and no method-syntax arm passes or takes `ec` as an explicit parameter. -/
+theorem method_arms_never_pass_ec :
+    ∀ p ∈ pairs, passesEc p.2.2.2.2.1 = false := by decide
+
+/-- every flavour switch guards at least one declaration / call / reference of a generated helper (there is no
+switch whose arms could be swapped or merged unnoticed), and the table is not empty -/
+theorem every_switch_has_a_site : pairs ≠ [] ∧ ∀ p ∈ pairs, p.2.2.2.1.any isSite = true := by decide
+
+/-- for ALL segment lists: the translation is compositional (one site at a time), so agreement of a whole arm is
+agreement site by site -/
+theorem toFn_append (vs : Bool) (a b : List Seg) : toFn vs (a ++ b) = toFn vs a ++ toFn vs b := by
+  simp [toFn, List.flatMap_append]
+
+/-- for ALL names and arguments: a call site translates to a call WITHOUT the receiver whose second argument is
+the execution context, and a declaration site to a declaration whose second parameter is `ec *executionContext` -/
+theorem toFn_call (vs : Bool) (n a0 : List Nat) :
+    toFn vs [(2, n, a0)] = n ++ [tLParen] ++ a0 ++ [tComma] ++ ecArg vs := by
+  simp [toFn, segFn]
+
+theorem toFn_decl (vs : Bool) (n p0 : List Nat) :
+    toFn vs [(1, n, p0)] = [tFunc] ++ n ++ [tLParen] ++ p0 ++ [tComma, tEc, tStar, tExecCtx] := by
+  simp [toFn, segFn]
+
+/-- the witness shape of C17-change4 is rejected by the Spec: `return ec . F ( ctx , sel , res )` in a function arm
+uses the receiver, its translation `return F ( ctx , ec , sel , res )` does not -/
+example : usesReceiver [100, tEc, tDot, 101, tLParen, 102, tComma, 103, tRParen] = true ∧
+    usesReceiver (toFn false [(0, [100], []), (2, [101], [102]), (0, [tComma], []), (0, [103], []), (0, [tRParen], [])]) = false := by
+  decide
+
+end Flavours
 
 end GqlgenVerif.Props.C17
